@@ -2359,3 +2359,19 @@ mod tests {
         }
     }
 }
+
+#[cfg(feature = "verif_hooks")]
+impl<'a> UserModel<'a> {
+    /// Lengths of the undo and redo stacks (read-only verification hook).
+    pub fn verif_history_depths(&self) -> (usize, usize) {
+        (
+            self.history.undo_stack.len(),
+            self.history.redo_stack.len(),
+        )
+    }
+
+    /// Number of diff batches waiting in the outgoing queue (read-only verification hook).
+    pub fn verif_send_queue_len(&self) -> usize {
+        self.send_queue.len()
+    }
+}
